@@ -66,7 +66,7 @@ def gen_srt(rng, tag, text=None):
         if empty:
             feats.add('empty-cue')
         else:
-            cues.append({'start': a, 'end': b, 'lines': [inline.display(ln, 'srt') for ln in lines]})
+            cues.append({'start': a, 'end': b, 'lines': [inline.display(ln, 'srt') for ln in lines], 'segs': lines})
     sep = nl * rng.choice([1, 1, 2, 3])
     if len(sep) > len(nl):
         feats.add('extra-blank-lines')
@@ -134,7 +134,7 @@ def gen_webvtt(rng, tag, text=None):
             feats.add('empty-cue')
         else:
             cues.append({'start': a + shift * 1000, 'end': b + shift * 1000,
-                         'lines': [inline.display(ln, 'webvtt') for ln in lines],
+                         'lines': [inline.display(ln, 'webvtt') for ln in lines], 'segs': lines,
                          'settings': settings.strip()})
     if rng.random() < 0.3:
         doc = doc.rstrip('\r\n')
@@ -223,7 +223,7 @@ def gen_dfxp(rng, tag, text=None, nlang=None):
                 feats.add('empty-cue')
             else:
                 cues.append({'start': int(bv), 'end': end_alt,
-                             'lines': [inline.display(ln, 'dfxp') for ln in lines]})
+                             'lines': [inline.display(ln, 'dfxp') for ln in lines], 'segs': lines})
         doc += ' </div>\n'
         expected.append({'lang': lang, 'cues': cues})
     doc += '</body>\n</tt>\n'
@@ -268,11 +268,11 @@ def gen_sami(rng, tag, text=None, nlang=None, same_sync_twice=0.1):
                 if blank:
                     feats.add('blank-sync')
                     body = '&nbsp;'
-                    events[lang].append((ms, None))
+                    events[lang].append((ms, None, None))
                 else:
                     lines = (text or inline.plain_lines)(rng, f'{tag}.{ci}.{si}.{rep}', 'sami')
                     body = rng.choice(['<br>', '<br/>', '<BR>']).join(inline.render(ln, 'sami', rng) for ln in lines)
-                    events[lang].append((ms, [inline.display(ln, 'sami') for ln in lines]))
+                    events[lang].append((ms, [inline.display(ln, 'sami') for ln in lines], lines))
                 if k == 2:
                     feats.add('two-p-one-sync')
                 doc += f'<{T("p")} {rng.choice(["Class", "class"])}={cls}>{body}' + (f'</{T("p")}>' if close_p else '')
@@ -283,17 +283,17 @@ def gen_sami(rng, tag, text=None, nlang=None, same_sync_twice=0.1):
     for lang in first_seen:
         evs = events[lang]
         cues = []
-        for idx, (ms, lines) in enumerate(evs):
+        for idx, (ms, lines, segs) in enumerate(evs):
             if lines is None:
                 continue
             end = None
-            for ms2, _ in evs[idx + 1:]:
+            for ms2, _, _s in evs[idx + 1:]:
                 if ms2 != ms:
                     end = ms2 * 1000
                     break
             if end is None:
                 end = (ms + 4000) * 1000
-            cues.append({'start': ms * 1000, 'end': end, 'lines': lines})
+            cues.append({'start': ms * 1000, 'end': end, 'lines': lines, 'segs': segs})
         expected.append({'lang': lang, 'cues': cues})
     if nlang > 1:
         feats.add('multi-language')
@@ -329,7 +329,7 @@ def gen_microdvd(rng, tag, text=None):
         if rng.random() < 0.1:
             doc += '\n'
         cues.append({'start': int(Fraction(a) * 10 ** 6 / f), 'end': int(Fraction(b) * 10 ** 6 / f),
-                     'lines': [inline.display(ln, 'microdvd') for ln in lines]})
+                     'lines': [inline.display(ln, 'microdvd') for ln in lines], 'segs': lines})
         if a >= 90000:
             feats.add('hour>=1')
     lang = rng.choice(['en-US', 'und', 'it'])
@@ -341,3 +341,70 @@ GENERATORS = {'srt': gen_srt, 'webvtt': gen_webvtt, 'dfxp': gen_dfxp, 'sami': ge
               'microdvd': gen_microdvd}
 READERS = {'srt': 'SRTReader', 'webvtt': 'WebVTTReader', 'dfxp': 'DFXPReader', 'sami': 'SAMIReader',
            'microdvd': 'MicroDVDReader'}
+
+
+def validate(d):
+    """The generated document as seen by the independent reference parser of its format must show
+    the cues we expect (count and times; text too unless unknown WebVTT tags are involved).
+    Returns None when consistent, else a reason string (the generator then retries)."""
+    from vf import dump
+    from vf.ref import parsers
+    fmt = d['format']
+    try:
+        if fmt == 'srt':
+            cues = parsers.parse_srt(d['doc'].replace('\r\n', '\n'), strict=False)
+            got = [[(c['start'], c['end'], dump.norm_lines(c['lines'])) for c in cues]]
+        elif fmt == 'webvtt':
+            shift = d['reader_kwargs'].get('time_shift_milliseconds', 0) * 1000
+            cues = [c for c in parsers.parse_webvtt(d['doc']) if c['lines']]
+            got = [[(c['start'] + shift, c['end'] + shift, dump.norm_lines(c['lines'])) for c in cues]]
+        elif fmt == 'microdvd':
+            cues = parsers.parse_microdvd(d['doc'])
+            got = [[(c['start'], c['end'], dump.norm_lines(c['lines'])) for c in cues]]
+        elif fmt == 'dfxp':
+            doc = parsers.parse_ttml(d['doc'])
+            got = []
+            for dv in doc['divs']:
+                got.append([(None, None, dump.norm_lines(p['lines'])) for p in dv['ps']
+                            if ''.join(p['lines']).strip()])
+        else:
+            doc = parsers.parse_sami(d['doc'])
+            by = {}
+            for s in doc['syncs']:
+                for p in s['ps']:
+                    if not p['blank']:
+                        by.setdefault(p['lang'], []).append((s['start_ms'] * 1000, None, dump.norm_lines(p['lines'])))
+            got = [by.get(e['lang'], []) for e in d['expected']]
+    except parsers.RefSyntaxError as e:
+        return 'reference parser rejects the generated document: %s' % e
+    if len(got) != len(d['expected']):
+        return 'language count'
+    for g, e in zip(got, d['expected']):
+        if len(g) != len(e['cues']):
+            return 'cue count %d != %d' % (len(g), len(e['cues']))
+        for (gs, ge, gl), c in zip(g, e['cues']):
+            if gs is not None and gs != c['start']:
+                return 'start'
+            ends = c['end'] if isinstance(c['end'], list) else [c['end']]
+            if ge is not None and ge not in ends:
+                return 'end'
+            has_unk = any(s[0] in ('unk', 'wrap') or (s[0] == 'o' and s[1] == 'v') for ln in c['segs'] for s in ln)
+            if not has_unk and gl != dump.norm_lines(c['lines']):
+                return 'text %r != %r' % (gl, dump.norm_lines(c['lines']))
+    return None
+
+
+def generate(fmt, rng, tag, ctx=None, **kw):
+    """A validated document of the format (retries when the reference parser disagrees with the
+    generator; such rejects are counted, they indicate a serialiser slip, not a pycaption defect)."""
+    for _ in range(20):
+        d = GENERATORS[fmt](rng, tag, **kw)
+        if not any(e['cues'] for e in d['expected']):
+            continue
+        why = validate(d)
+        if why is None:
+            return d
+        if ctx is not None:
+            ctx.count('generator_rejects_' + fmt)
+            ctx.note('last_generator_reject_' + fmt, why[:300])
+    raise RuntimeError('could not generate a valid %s document: %s' % (fmt, why))
